@@ -876,7 +876,7 @@ func (p *Path) selectInstr(fr *Frame, instr *ssa.Select) {
 			}
 		}
 	}
-	fr.env[instr] = r
+	fr.set(instr, r)
 }
 
 // ---------- builtins ----------
